@@ -151,6 +151,30 @@ add('C12',
     "only relative to the monitored premise that every accepted match removes a non-zero peak.",
     "Coq proof (loop invariant by induction on fuel, pointwise selector algebra) + trace-driven correspondence + oracle", "5/C12")
 
+add('C01',
+    "Coq theorems: FFT product = cross-correlation for centro-symmetric masks of either parity; radial masks are centro-symmetric for every shape and user templates "
+    "keep their shape//2 pixel; the map of background + amplitude x disk decomposes into background x mask sum + amplitude x (mask weight on the displaced disk); bathtub "
+    "and sign lemmas (finite sets, any cardinality) bound the weight of every displaced copy by the centred disk; the map of point-symmetric data is point symmetric about "
+    "the disk centre; a point-symmetric neighbourhood refines to its centre EXACTLY. Tie: model pipeline vs implementation on integer-valued sharp disks where the model "
+    "yields argmax = centre and sy = r s exactly; hypotheses (csymb, bathtub/sign) evaluated in Coq on the implementation's masks. Oracle: the statement incl. upsampling.",
+    CORR_NOTE + "Uniqueness of the maximum (centre = p rather than 'a maximum is at p') needs the strict version of the bathtub hypothesis and is established per "
+    "instance by the model's argmax, not by a general theorem; for gradient-type patterns neither bathtub nor sign hypothesis holds and the claim rests on the per-instance "
+    "model evaluation and the oracle. The upsampling clause (1.5/upsample) is float DFT numerics: sampled only.",
+    "Coq proof (sum reindexing, finite-set bathtub argument, symmetry of the centre of mass) + per-instance hypothesis evaluation + correspondence + oracle", "5/C01")
+add('C07',
+    "Coq theorems: the map get_correlation returns is the cross-correlation with the centred mask for centro-symmetric masks of any shape; built-in (radial) masks are "
+    "centro-symmetric for every shape; ifftshift puts zero displacement on n/2 for every n while fftshift and the default irfft2 length are wrong for odd sizes (repaired "
+    "defect F8, refuted with witnesses); the map scales with the brightness. Tie: get_correlation vs exact cyclic convolution under vm_compute on frames of all parities.",
+    CORR_NOTE + "skimage.feature.peak_local_max is external: its contract (k highest separated local maxima in decreasing order) is assumed and sampled by the oracle.",
+    "Coq proof + vm_compute correspondence + oracle over shapes of all parities", "5/C07")
+add('C02',
+    "PARTIAL (level other). Proved: the centre-of-mass refined position stays in the (2r+1)^2 neighbourhood (r <= 2) of the integer centre; the upsampled grid has spacing 1/u, "
+    "contains the integer position, covers +-(3/4 - 1/(2u)) px and never exceeds 3/4 + 1/(2u); translation equivariance reduces every position to one unit cell. NOT proved: "
+    "the three accuracy figures (1 px, 0.5 px, 1/upsample + 0.03 px), which are float FFT/log numerics over a continuum of sub-pixel offsets -- these are sampled on the "
+    "implementation. The model pipeline is compared with the implementation on sub-pixel disks.",
+    CORR_NOTE + "No Gallina model of the float DFT / logarithm exists here, and interval proofs per (radius, pattern, offset box) were judged out of reach; the accuracy clauses are evidence, not proof.",
+    "Coq proof of the index skeleton + correspondence; accuracy clauses by sampling (stated as such)", "5/C02", category='other')
+
 NOT_YET = "check not built yet in this round (work in progress; design in DESIGN.md section 5)"
 
 def main():
